@@ -2,6 +2,7 @@ package harness
 
 import (
 	"math/rand"
+	"strings"
 )
 
 // GenTLS: conversations across a real STARTTLS upgrade (crypto/tls on both
@@ -30,6 +31,9 @@ func GenTLS(rng *rand.Rand, thorough bool, emit func(*Sx)) {
 		{"clean", "", ""},
 		{"buffered", "RCPT TO:<inj@evil>\r\nMAIL FROM:<inj@evil>\r\n", ""},
 		{"later", "", "MAIL FROM:<inj@evil>\r\n"},
+		// an unterminated fragment just below the line limit, buffered behind STARTTLS: nothing of it - not
+		// even its length - may count inside TLS
+		{"buffered-long", "RCPT TO:<inj@evil>\r\n" + strings.Repeat("x", 95), ""},
 	}
 	n := 0
 	for _, insecure := range []bool{true, false} {
@@ -42,6 +46,9 @@ func GenTLS(rng *rand.Rand, thorough bool, emit func(*Sx)) {
 					n++
 					cfg := DefaultCfg()
 					cfg.TLSConfig = true
+					if in.name == "buffered-long" {
+						cfg.MaxLine = 100
+					}
 					cfg.Insecure = insecure
 					cfg.HasAuth, cfg.Auth = true, []string{"PLAIN"}
 					f := newF(cfg)
@@ -257,6 +264,13 @@ func GenC12(rng *rand.Rand, thorough bool, emit func(*Sx)) {
 								probe("MAIL FROM:<p@x> BODY=8BITMIME", 250)
 								probe("MAIL FROM:<p@x> RET=HDRS", on(cfg.DSN, 250, 504))
 								probe("MAIL FROM:<p@x> ENVID=e1", on(cfg.DSN, 250, 504))
+								if !cfg.DSN {
+									probe("MAIL FROM:<p@x> RET=BOGUS", 504)
+									probe("MAIL FROM:<p@x> ENVID=", 504)
+								}
+								if !cfg.BinaryMIME {
+									probe("MAIL FROM:<p@x> body=binarymime", 504)
+								}
 								probe("MAIL FROM:<p@x> SIZE=1000", 250)
 								probe("MAIL FROM:<p@x> SIZE=1001", on(maxBytes > 0, 552, 250))
 								f.cmd("MAIL FROM:<p@x>", 250)
@@ -275,6 +289,15 @@ func GenC12(rng *rand.Rand, thorough bool, emit func(*Sx)) {
 								rprobe("RCPT TO:<r1@x> NOTIFY=SUCCESS", cfg.DSN)
 								rprobe("RCPT TO:<r2@x> ORCPT=rfc822;o@x", cfg.DSN)
 								rprobe("RCPT TO:<r3@x> RRVS=2014-04-03T23:01:00Z", cfg.RRVS)
+								// a disabled extension is refused with 504 whatever the value looks like
+								if !cfg.RRVS && !(maxRcpt > 0 && acc >= maxRcpt) {
+									f.cmd("RCPT TO:<z1@x> RRVS=0001-01-01T00:00:00Z", 504)
+									f.cmd("RCPT TO:<z2@x> RRVS=garbage", 504)
+								}
+								if !cfg.DSN && !(maxRcpt > 0 && acc >= maxRcpt) {
+									f.cmd("RCPT TO:<z3@x> NOTIFY=BOGUS", 504)
+									f.cmd("RCPT TO:<z4@x> ORCPT=", 504)
+								}
 								for i := 0; i < 3; i++ {
 									rprobe("RCPT TO:<more@x>", true)
 								}
